@@ -2,6 +2,7 @@
 
 import itertools
 import re
+from pathlib import Path
 
 from click.testing import CliRunner
 
@@ -17,7 +18,7 @@ def bases(f):
 
 class C19(Prop):
     pid = "C19"
-    imports = "From Tola Require Import Py.Base Model.Fragment Model.Scaffold Corr.C19."
+    imports = "From Tola Require Import Py.Base Model.Fragment Model.Scaffold Model.AsmFormat Corr.C19."
     show_fn = "show"
     design_ref = "6/C19"
     required_theorems = [
@@ -29,6 +30,7 @@ class C19(Prop):
         "C19_different_names",
         "C19_scan_spec",
         "C19_scan_once",
+        "C19_report_blocks",
     ]
 
     def rule(self):
@@ -141,12 +143,17 @@ class C19(Prop):
             "pairs": conv(re.findall(pat, r.stderr)),
             "stdout_is_agp": r.stdout == buf.getvalue(),
         }
+        # the same invocations recorded byte for byte for the model of the command
+        from .. import text_util as T
+        out["invocations"] = [T.af_invoke(["--qc-overlaps", "-i", "AGP"], stdin=buf.getvalue(), in_fmt="AGP", qc=True)]
         # the same assembly given as two input files: each file is scanned and reported on its own
         d = core.BUILD / self.pid / "cli"
         d.mkdir(parents=True, exist_ok=True)
         for n in ("first.agp", "second.agp"):
             (d / n).write_text(buf.getvalue())
         r2 = CliRunner().invoke(asm_format.cli, ["--qc-overlaps", str(d / "first.agp"), str(d / "second.agp")])
+        out["invocations"].append(T.af_invoke(["--qc-overlaps", "-f", "TPF"], [(d / "first.agp", buf.getvalue()), (d / "second.agp", buf.getvalue())],
+                                              out_fmt="TPF", qc=True))
         secs = re.split(r"Overlaps detected in assembly '([^']*)'", r2.stderr)
         out["multi"] = {"exit": r2.exit_code, "stdout_twice": r2.stdout == buf.getvalue() * 2,
                         "sections": [[secs[i], conv(re.findall(pat, secs[i + 1]))] for i in range(1, len(secs) - 1, 2)]}
@@ -161,6 +168,9 @@ class C19(Prop):
                      ["--qc-overlaps", "--name", "given", str(d / "first.agp"), str(d / "v2" / "same.agp")],
                      ["--qc-overlaps", str(d / "v1" / "same.agp"), str(d / "v3" / "same.agp")]):
             r3 = CliRunner().invoke(asm_format.cli, args)
+            fl = [(Path(a), Path(a).read_text()) for a in args if a.endswith(".agp")]
+            nm = args[args.index("--name") + 1] if "--name" in args else None
+            out["invocations"].append(T.af_invoke([a for a in args if not a.endswith(".agp")], fl, name=nm, qc=True))
             secs = re.split(r"Overlaps detected in assembly '([^']*)'", r3.stderr)
             second = buf.getvalue() if "v3" in args[-1] else clean
             out["samename"].append({"exit": r3.exit_code, "stdout_ok": r3.stdout == buf.getvalue() + second,
@@ -197,6 +207,10 @@ class C19(Prop):
                 ),
             )
             return f"CScan {listlit(scs)} {pr}"
+        if "cli" in obs and obs["cli"].get("invocations"):
+            from .. import text_util as T
+
+            return [t] + [lambda names, rec=rec: T.af_term(rec, names) for rec in obs["cli"]["invocations"]]
         return t
 
     def oracle(self, case, obs):
